@@ -120,7 +120,13 @@ def _job(args):
             c["edges"] = [(a, b) for (a, b) in c["edges"] if a not in inner]
         done += 1
         hs, metas = histories(c)
-        res, pair = layers.eval_layer_histories(c["nodes"], c["edges"], hs, mode)
+        if mode == "direct" and rng.random() < 0.1:
+            # the same layer rules on a LEVEL-LIMITED architecture: a deeper graph whose limited view is this one
+            n2, e2, lim = rules.refine_for_limit(rng, c["nodes"], c["edges"])
+            res, pair = layers.eval_layer_histories(n2, e2, hs, mode, limit=lim)
+            out["stats"]["level_limited"] = out["stats"].get("level_limited", 0) + 1
+        else:
+            res, pair = layers.eval_layer_histories(c["nodes"], c["edges"], hs, mode)
         onodes, oedges = layers.eval_layer_histories.last_observed   # the architecture's own modules/imports
         verdicts = set()
         for h, meta, (io, mo) in zip(hs, metas, res):
